@@ -146,6 +146,19 @@ Theorem C18_prepared_never_underflows : forall o e flag u p e',
   ModedProofs.calls_push o (pconsts u) (pfuncs u) fns obj fuel code 0 m -> out <> OErr EInternal.
 Proof. exact PreparedProofs.prepared_never_underflows. Qed.
 
+(* ... and neither does the OPTIMIZED program, whenever the validated optimizer answers (the check compares
+   its answer with the implementation's optimized program on every case) *)
+Theorem C18_prepared_optimized_never_underflows : forall o e flag u p e' p',
+  prepare o e flag = (PrepOk u p, e') ->
+  optimize_program_safe u = Some p' ->
+  forall fns obj m, polls m = None ->
+  (forall fuel', ModedProofs.calls_push o (pconsts u) (pfuncs u) fns obj fuel' (pmain u) 0
+                            (mkM [] (env_truncate (menv m) 0) (trace m) (polls m))) ->
+  forall fuel out m',
+  run_main o (pconsts p') (pfuncs p') fns obj fuel (pmain p') m = (out, m') ->
+  out <> OErr EInternal.
+Proof. exact PreparedProofs.prepared_optimized_never_underflows. Qed.
+
 (* the script TEXT of finding D19, `a = b = 3;`: it parses (to the tree of C18_valueless_refuted) and the
    compiler accepts it, but the assignment `b = 3` stands where a value is needed - Prepare rejects it, with
    or without optimisation, and leaves the evaluator as it was *)
